@@ -1,7 +1,7 @@
 CHECK = {
     "suites": [suite("rounds", "c10", 2500, 150000, stdin=True), suite("dist", "c10dist", 3000, 200000, stdin=True)],
-    "gen": [{"pkg": "extract_c10", "out": "lean/ClusterVerif/Gen/C10.lean"}],
-    "lean_sources": ["ClusterVerif/Model/C10Source.lean", "ClusterVerif/Gen/C10.lean", "ClusterVerif/Model/Pin.lean", "ClusterVerif/Model/C04.lean", "ClusterVerif/Model/C10.lean", "ClusterVerif/Spec/C10.lean", "ClusterVerif/Model/C10Dist.lean", "ClusterVerif/Spec/C10Dist.lean", "ClusterVerif/Lemmas/C10Dist.lean",
+    "gen": [{"pkg": "extract_c10", "out": "lean/ClusterVerif/Gen/C10.lean"}, {"pkg": "extract_c10sem", "out": "lean/ClusterVerif/Gen/C10Sem.lean"}],
+    "lean_sources": ["ClusterVerif/Model/C10Source.lean", "ClusterVerif/Gen/C10.lean", "ClusterVerif/Model/Pin.lean", "ClusterVerif/Model/C04.lean", "ClusterVerif/Model/C10.lean", "ClusterVerif/Spec/C10.lean", "ClusterVerif/Model/C10Dist.lean", "ClusterVerif/Spec/C10Dist.lean", "ClusterVerif/Lemmas/C10Dist.lean", "ClusterVerif/Model/C10Sem.lean", "ClusterVerif/Gen/C10Sem.lean",
                      "ClusterVerif/Model/C03.lean", "ClusterVerif/Spec/C03.lean", "ClusterVerif/Lemmas/C10.lean", "ClusterVerif/Props/C10.lean"],
     "rule": "one case = one round over a shared pinset of 1-6 pins and 1-8 members: a ping alert for one member delivered to the real alertsHandler of every other "
             "(trusted) member, or one member running PeerRemove (LogPin / RmPeer call order recorded, RmPeer optionally failing, metrics optionally too scarce for some "
